@@ -1189,7 +1189,7 @@ func TestC26(t *testing.T) {
 	run.Assume("fakeredis logs a push in the order it reaches the wire; every published payload is unique, so a delivered message identifies one wire frame",
 		"completeness is demanded up to the unsubscribe notification (wire order) or, for abrupt ends (cancel, Close, kill), up to the last settle point of the bubble before the end; beyond that only 'contiguous, in order, no duplicates, nothing foreign' is demanded",
 		"Receives whose channels are already delivering on the connection are only set up in quiet phases (known finding: pipe wedged by early messages); the wedge itself is probed separately")
-	n := run.N(90, 3000)
+	n := run.N(300, 6000)
 	rng := run.Rand("scenarios")
 	var st stats
 	for i := 0; i < n; i++ {
